@@ -24,7 +24,7 @@ Print Assumptions C08_apply_x_slice.
 (** ** Fokker-Planck step: FokkerPlanckMap::apply loops over bunches with one shared stencil table;
     the flat loop is a map of the single-bunch operator over the bunch slices (any table [H], any
     field, any number of bunches - the bunch count only bounds the index range). *)
-From Inovesa Require Import Base.Sums Gen.Gen_FPStencil Model.FokkerPlanck Proofs.FokkerPlanckP.
+From Inovesa Require Import Base.Sums Gen.Gen_FPStencil Model.FokkerPlanck Proofs.FPGridP.
 
 Theorem C08_fp_apply_slice :
   forall (K : Fld) (n xs ip : Z) (H : Z -> Z * K) (D : Z -> K) (b i : Z),
